@@ -336,6 +336,9 @@ func runC11(col *Collector, tier string, seed int64) {
 	for k := 0; k < 4; k++ {
 		sharedProducerCase(col, 2+k%2)
 	}
+	for v := 0; v < 3; v++ {
+		nestedHandoverCase(col, v)
+	}
 	for k := 0; k < 3; k++ {
 		sharedProducerParallelCase(col, 3+k)
 		parallelProducersStressCase(col, 4+4*k, 25)
@@ -492,6 +495,82 @@ func sharedProducerParallelCase(col *Collector, lines int) {
 	cs.Impl = clip([]byte(got))
 	if got != whole("a") && got != whole("b-much-longer-lines-") {
 		cs.Fail, cs.Sig = fmt.Sprintf("consumer read %q: neither the complete output of the one execution (%q) nor of the other (%q)", got, whole("a"), whole("b-much-longer-lines-")), "c11-handover"
+	}
+	col.Add(cs)
+}
+
+// a producer, then a stage that INCLUDES a pipeline (with a producer / consumer pair of its own), then a consumer of
+// the first producer that starts after the included pipeline has started (variant 0: it depends on the including
+// stage too; 1: on a slow sibling; 2: the included pipeline is included a second time further down the chain). Running
+// an included pipeline is part of the same run: what the outer producer wrote is still handed to its dependants.
+func nestedHandoverCase(col *Collector, variant int) {
+	dir := newScratchDir("c11n")
+	defer os.RemoveAll(dir)
+	mk := func(name string, cmds ...string) *task.Task {
+		t := task.FromCommands(cmds...)
+		t.Name = name
+		return t
+	}
+	seen := func(n string) string { return filepath.Join(dir, n) }
+	inner, err := scheduler.NewExecutionGraph(
+		&scheduler.Stage{Name: "in1", Task: mk("in-one", "echo from the inside")},
+		&scheduler.Stage{Name: "in2", Task: mk("in-two", fmt.Sprintf("printenv IN_ONE_OUTPUT >> %s", seen("inner"))), DependsOn: []string{"in1"}},
+	)
+	cs := Case{Tags: []string{"nested-handover"}, NonTrivial: true, Replay: fmt.Sprintf("producer -> [stage including a pipeline (in1 -> in2)] ; consumer of the producer starting after the included pipeline started, variant %d", variant)}
+	if err != nil {
+		cs.Fail, cs.Sig = err.Error(), "c11-build"
+		col.Add(cs)
+		return
+	}
+	stages := []*scheduler.Stage{
+		{Name: "produce", Task: mk("outer one", "echo made outside", "echo second line")},
+		{Name: "inc", Pipeline: inner, DependsOn: []string{"produce"}},
+	}
+	consumer := &scheduler.Stage{Name: "consume", Task: mk("consumer", fmt.Sprintf("printenv OUTER_ONE_OUTPUT > %s", seen("outer")))}
+	switch variant {
+	case 0:
+		consumer.DependsOn = []string{"produce", "inc"}
+	case 1:
+		stages = append(stages, &scheduler.Stage{Name: "gate", Task: mk("gate", "sleep 0.3"), DependsOn: []string{"produce"}})
+		consumer.DependsOn = []string{"gate", "produce"}
+	case 2:
+		stages = append(stages, &scheduler.Stage{Name: "mid", Task: mk("mid", "true"), DependsOn: []string{"inc"}},
+			&scheduler.Stage{Name: "inc2", Pipeline: inner, DependsOn: []string{"mid"}})
+		consumer.DependsOn = []string{"inc2", "produce"}
+	}
+	stages = append(stages, consumer)
+	g, err := scheduler.NewExecutionGraph(stages...)
+	if err != nil {
+		cs.Fail, cs.Sig = err.Error(), "c11-build"
+		col.Add(cs)
+		return
+	}
+	r, _ := runner.NewTaskRunner()
+	r.Stdout, r.Stderr = devNull{}, devNull{}
+	sd := scheduler.NewScheduler(r)
+	sd.VerifSetPause(time.Millisecond)
+	done := make(chan error, 1)
+	go func() { done <- sd.Schedule(g) }()
+	select {
+	case err := <-done:
+		if err != nil {
+			cs.Fail, cs.Sig = "pipeline failed: "+err.Error(), "c11-run"
+			col.Add(cs)
+			return
+		}
+	case <-time.After(20 * time.Second):
+		cs.Fail, cs.Sig = "pipeline did not finish within 20s", "c11-run"
+		col.Add(cs)
+		return
+	}
+	outer, _ := os.ReadFile(seen("outer"))
+	in, _ := os.ReadFile(seen("inner"))
+	cs.Impl = fmt.Sprintf("outer=%q inner=%q", outer, in)
+	switch {
+	case string(outer) != "made outside\nsecond line\n\n":
+		cs.Fail, cs.Sig = fmt.Sprintf("the consumer read %q, the producer it depends on wrote %q", outer, "made outside\nsecond line\n"), "c11-handover"
+	case !strings.HasPrefix(string(in), "from the inside\n\n"):
+		cs.Fail, cs.Sig = fmt.Sprintf("the consumer inside the included pipeline read %q, its producer wrote %q", in, "from the inside\n"), "c11-handover"
 	}
 	col.Add(cs)
 }
